@@ -163,6 +163,41 @@ func factsWalletTx() {
 		})
 		items = append(items, fmt.Sprintf("(%s, %d, %v, %v, %v, %v)", leanStr(name), updates, swallows, assigns, locksOnEntry, touchesMaps))
 	}
+	// AddrManager methods: (name, touches the address map, locks a.mu on entry)
+	var am []string
+	var amNames []string
+	for k := range methods {
+		if strings.HasPrefix(k, "AddrManager.") {
+			amNames = append(amNames, k)
+		}
+	}
+	sort.Strings(amNames)
+	for _, k := range amNames {
+		fd := methods[k]
+		touches := false
+		ast.Inspect(fd.Body, func(n ast.Node) bool {
+			if se, ok := n.(*ast.SelectorExpr); ok && se.Sel.Name == "addrs" {
+				touches = true
+			}
+			return true
+		})
+		locks := false
+		if len(fd.Body.List) >= 2 {
+			if es, ok := fd.Body.List[0].(*ast.ExprStmt); ok {
+				if ce, ok := es.X.(*ast.CallExpr); ok {
+					if se, ok := ce.Fun.(*ast.SelectorExpr); ok && se.Sel.Name == "Lock" {
+						if ds, ok := fd.Body.List[1].(*ast.DeferStmt); ok {
+							if se2, ok := ds.Call.Fun.(*ast.SelectorExpr); ok && se2.Sel.Name == "Unlock" {
+								locks = true
+							}
+						}
+					}
+				}
+			}
+		}
+		am = append(am, fmt.Sprintf("(%s, %v, %v)", leanStr(strings.TrimPrefix(k, "AddrManager.")), touches, locks))
+	}
+	emit("/-- methods of `AddrManager`: (name, touches the address map `addrs`, locks the AddrManager mutex on entry) -/\ndef addrMgrMethods : List (String × Bool × Bool) := [\n  %s]", strings.Join(am, ",\n  "))
 	emit("/-- exported methods of `KeystoreManagerForPoC`: (name, number of db.Update calls, a closure swallows an error,\n    a receiver field is assigned inside a closure, locks the manager mutex on entry, touches shared manager state) -/\ndef walletMethods : List (String × Nat × Bool × Bool × Bool × Bool) := [\n  %s]", strings.Join(items, ",\n  "))
 }
 
